@@ -1,5 +1,6 @@
 From Coq Require Import ZArith Bool List Lia Zify.
 From Otto Require Import C12.Spec.
+From Otto Require Import Common.Double C12.Model.
 Import ListNotations.
 Open Scope Z_scope.
 Ltac Zify.zify_post_hook ::= Z.div_mod_to_equations.
@@ -325,4 +326,15 @@ Proof.
   replace (id + 10 - 10) with id by lia.
   replace (option_map (fun t0 => t0 + 0) t) with t by (destruct t; cbn; [rewrite Z.add_0_r|]; reflexivity).
   destruct (set_raw id t a); cbn [option_map]; [rewrite Z.sub_0_r|]; reflexivity.
+Qed.
+
+(* newDateTime (after 875fefb) agrees with 15.9.4.3 on fractional arguments wherever the result is a time value *)
+Lemma utcq_model_in_range l r :
+  utc_raw (tointf l) = Some r -> Z.abs r <= maxTime -> utcq_model l = utcq l.
+Proof.
+  intros E H. unfold utcq_model, utcq, utc. rewrite E. cbn [option_map].
+  unfold TimeClip. destruct (Z.leb_spec (Z.abs r) maxTime); [|lia].
+  f_equal. unfold round_to_double.
+  assert (L : Z.abs r <? 2 ^ 53 = true) by (apply Z.ltb_lt; unfold maxTime in H; change (2 ^ 53) with 9007199254740992; lia).
+  rewrite L. reflexivity.
 Qed.
